@@ -46,6 +46,11 @@ every hit, and the check fails when source and table disagree):
   shared-raise ``raise self.X`` in a method of a long-lived class, or ``raise name`` where ``name`` is a module-level object that is not a
                class: an exception object that exists before the request and is raised into it
 
+  access-shape (a form added to items found by the detectors above) ``iter:<how>`` / ``locked-iter:<how>``: some function of the package ITERATES over the
+               shared container (``for``, comprehension, ``.values()/.items()/.keys()``, ``list()/sorted()/tuple()/any()/join()``, ``*X``, ``range(len(X))``)
+               outside / inside a ``with <lock>:`` block.  An iteration is not one atomic operation: it is not part of the get / capped-insert
+               protocol of the memo model (Sm) nor of test-and-set (Lz), so no memo / lazy kind admits it.
+
 The ``shape`` of an item is a short canonical string (decorator text with its arguments; the set of mutation forms); a change of
 shape (e.g. ``lru_cache(maxsize=64)`` -> ``lru_cache(maxsize=None)``, or a new kind of mutation) is reported like a new item.
 """
@@ -739,7 +744,150 @@ def scan(root=None, per_request_classes=()):
         # class-level mutable literals (reported only when mutated in place through self./cls., see record_target: they
         # surface as inst-attr / class-attr items of the class)
 
+    access_shapes(trees, items, per_request_classes)
     return items
+
+
+# ---------------------------------------------------------------------------------------------------------------------
+# access shapes: HOW an inventoried shared container is read.  The proved kinds (Sm: get / capped insert; Lz: test-and-set; configuration: written
+# before serving) describe single C-level operations on the container.  An ITERATION over it - `for .. in X`, `X.values()/.items()/.keys()`,
+# a comprehension, `list(X)/sorted(X)/tuple(X)/any(..)/''.join(X)/*X`, a `range(len(X))` index loop - is a sequence of operations with thread
+# switches in between: it observes other threads' inserts (RuntimeError "changed size during iteration", skipped/duplicated items, IndexError).
+
+ITER_CALLS = {'list', 'tuple', 'sorted', 'set', 'frozenset', 'dict', 'sum', 'min', 'max', 'any', 'all', 'enumerate', 'zip', 'map', 'filter', 'reversed',
+              'iter', 'next', 'chain', 'deque', 'Counter', 'OrderedDict', 'join', 'extend', 'update', 'from_iterable', 'fromkeys'}
+ITER_WRAPPERS = {'enumerate', 'reversed', 'iter', 'sorted', 'list', 'tuple', 'zip', 'set', 'frozenset'}
+VIEW_METHODS = {'values', 'items', 'keys'}
+
+
+def _iteration_sites(tree):
+    """yield (iterated expression, how, node) for every syntactic iteration in `tree`"""
+    for n in ast.walk(tree):
+        if isinstance(n, (ast.For, ast.AsyncFor)):
+            yield n.iter, 'for', n
+        elif isinstance(n, (ast.ListComp, ast.SetComp, ast.DictComp, ast.GeneratorExp)):
+            for g in n.generators:
+                yield g.iter, 'comp', n
+        elif isinstance(n, ast.Call):
+            d = dotted(n.func)
+            tail = d.split('.')[-1] if d else (n.func.attr if isinstance(n.func, ast.Attribute) else None)
+            if tail == 'range' and len(n.args) >= 1:
+                for a in n.args:
+                    if isinstance(a, ast.Call) and dotted(a.func) == 'len' and a.args:
+                        yield a.args[0], 'range(len())', n
+            elif tail in ITER_CALLS:
+                for a in (n.args[1:] if tail in ('map', 'filter') else n.args):
+                    if isinstance(a, ast.Starred):
+                        a = a.value
+                    yield a, tail + '()', n
+            else:
+                for a in n.args:
+                    if isinstance(a, ast.Starred):
+                        yield a.value, '*', n
+        elif isinstance(n, (ast.Tuple, ast.List, ast.Set)) and isinstance(getattr(n, 'ctx', ast.Load()), ast.Load):
+            for e in n.elts:
+                if isinstance(e, ast.Starred):
+                    yield e.value, '*', n
+        elif isinstance(n, (ast.YieldFrom,)):
+            yield n.value, 'yield-from', n
+
+
+def _unwrap_iterated(e, how):
+    """strip views and transparent wrappers: ``enumerate(X.items())`` -> (X, 'for.items()')"""
+    for _ in range(6):
+        if isinstance(e, ast.Call) and isinstance(e.func, ast.Attribute) and e.func.attr in VIEW_METHODS and not e.args:
+            how += '.' + e.func.attr + '()'
+            e = e.func.value
+        elif isinstance(e, ast.Call) and isinstance(e.func, ast.Name) and e.func.id in ITER_WRAPPERS and e.args:
+            e = e.args[0]
+        else:
+            break
+    return e, how
+
+
+def access_shapes(trees, items, per_request_classes=()):
+    """add the form ``iter:<how>`` (``locked-iter:<how>`` when lexically inside ``with <lock>:``) to every ALREADY INVENTORIED item that some function
+    of the package iterates over.  Returns the number of sites found."""
+    found = 0
+    for rel, tree in trees.items():
+        parent = {}
+        for n in ast.walk(tree):
+            for c in ast.iter_child_nodes(n):
+                parent[c] = n
+        scopes = {}
+
+        def scope_of(fn, chain_parent):
+            if id(fn) not in scopes:
+                scopes[id(fn)] = _Scope(fn, chain_parent, None)
+            return scopes[id(fn)]
+
+        for expr, how, node in _iteration_sites(tree):
+            expr, how = _unwrap_iterated(expr, how)
+            # ancestors: functions (innermost first), classes, with-blocks
+            fns, cls, qual, locked = [], None, [], False
+            a = node
+            while a in parent:
+                a = parent[a]
+                if isinstance(a, (ast.FunctionDef, ast.AsyncFunctionDef)):
+                    fns.append(a)
+                    qual.insert(0, a.name)
+                elif isinstance(a, ast.ClassDef):
+                    if cls is None:
+                        cls = a
+                    qual.insert(0, a.name)
+                elif isinstance(a, (ast.With, ast.AsyncWith)) and not fns:
+                    for it in a.items:
+                        ce = it.context_expr
+                        if isinstance(ce, (ast.Name, ast.Attribute)) or 'lock' in _unparse(ce).lower():
+                            locked = True
+            if not fns:
+                continue            # module level: runs at import
+            method = fns[-1].name
+            sc = None
+            for f in reversed(fns):
+                sc = scope_of(f, sc)
+            keys = []
+            if isinstance(expr, ast.Name):
+                name = expr.id
+                # (1) a parameter with a mutable default of an enclosing function (kwarg cache)
+                q = list(qual)
+                for depth, f in enumerate(fns):
+                    fq = '.'.join(q[:len(q) - depth])
+                    if (rel, f'{fq}({name}=)') in items:
+                        keys.append((rel, f'{fq}({name}=)'))
+                        break
+                    if name in scopes[id(f)].locals:
+                        break
+                if not keys:
+                    al = sc.alias_of(name)
+                    if al and cls is not None:
+                        keys.append((rel, f'{cls.name}.{al}'))
+                    elif not sc.is_local(name):
+                        keys.append((rel, name))
+                    else:
+                        for depth in range(1, len(fns)):
+                            fq = '.'.join(qual[:len(qual) - depth])
+                            keys.append((rel, f'{fq}.<cell>.{name}'))
+            elif isinstance(expr, ast.Attribute):
+                od = dotted(expr.value)
+                if od == 'self' and cls is not None:
+                    if method not in INIT_METHODS and cls.name not in per_request_classes:
+                        keys.append((rel, f'{cls.name}.{expr.attr}'))
+                elif od in ('cls', 'self.__class__') and cls is not None:
+                    keys.append((rel, f'{cls.name}.{expr.attr}'))
+                elif od is not None and '.' not in od and not sc.is_local(od):
+                    keys.append((rel, f'{od}.{expr.attr}'))                     # ClassName.X
+                    for (r, qn) in list(items):
+                        if qn == expr.attr and r.rsplit('/', 1)[-1][:-3] == od:  # module.NAME
+                            keys.append((r, qn))
+            for key in keys:
+                it = items.get(key)
+                if it is not None and it.detector in ('module-state', 'default-arg', 'inst-attr', 'class-attr', 'closure-cell', 'closure-state', 'partial-state'):
+                    it.shape.add(('locked-iter:' if locked else 'iter:') + how)
+                    it.lines.append(getattr(node, 'lineno', 0))
+                    found += 1
+                    break
+    return found
 
 
 def lock_uses(tree):
